@@ -5,7 +5,7 @@
    with an index, `wr` outside it is Oob.  Loops are structural or run on explicit fuel (NoFuel = did not terminate).
    No proofs in this file. *)
 From Coq Require Import NArith ZArith Bool List.
-From CppUVerif Require Import lib.Str C13_Text.
+From CppUVerif Require Import lib.Str C13_Text C13_Alloc.
 Import ListNotations.
 Local Open Scope N_scope.
 
@@ -297,6 +297,22 @@ Definition binary_m (bytes : list N) (size : nat) : res (list N) :=
   (* result.subString(0, result.size() - 1): size()-1 wraps to SIZE_MAX for the empty string, subString then returns "" *)
   Ok (removelast s).
 
+(* VStringFromFormat("%s%s", a, b): vsnprintf is an oracle that writes min(length, cells-1) bytes of the text and a NUL.
+   size < 100: result built from the 100-byte stack buffer; otherwise a buffer of size+1 bytes is requested from the string
+   allocator, filled, copied into the result and handed back with size+1. *)
+Definition vsnprintf_m (cells : nat) (text : list N) : list N :=
+  firstn (cells - 1) text ++ 0 :: fresh (cells - 1 - length text).
+Definition format_m (text : list N) : res (list N) :=
+  let size := length text in
+  if Nat.ltb size 100 then newFrom (vsnprintf_m 100 text) else newFrom (vsnprintf_m (S size) text).
+(* allocator events of one call: the temporary buffer, then the life of the result string
+   (default-constructed "", assigned from SimpleString(buffer)) *)
+Definition format_log (size : nat) : list ev :=
+  (if Nat.ltb size 100 then [] else [EA (S size); EF (S size)]) ++ life [PCopy 1; PCopy (S size)].
+(* seeded variant: the temporary buffer handed back with `size` *)
+Definition format_log_wrong (size : nat) : list ev :=
+  (if Nat.ltb size 100 then [] else [EA (S size); EF size]) ++ life [PCopy 1; PCopy (S size)].
+
 (* ================================================================ scenarios, observations, run, spec *)
 (* A C-string argument s (no NUL inside) is handed to the code in a buffer of exactly length s + 1 cells. *)
 Definition cs (s : list N) : list N := s ++ [0].
@@ -311,7 +327,10 @@ Inductive op :=
 | OFind (a : list N) (ch : N) | OFindFrom (a : list N) (start ch : N)
 | OSubString (a : list N) (b n : N) | OSubString1 (a : list N) (b : N)
 | OLower (a : list N) | OReplaceChar (a : list N) (c1 c2 : N)
-| OOrdinal (n : N).
+| OOrdinal (n : N)
+| OReplaceStr (a to w : list N) | OPrintable (a : list N) | OAppend (a b : list N) | OPlus (a b : list N)
+| OCopyBuf (a : list N) (dn : nat)
+| OFormat (a b : list N).
 
 Inductive oval := VZ (z : Z) | VNone | VB (l : list N) | VL (l : list (list N)) | VErr.
 Record obs := { o_val : oval; o_ref : bool; o_paired : bool }.
@@ -331,6 +350,10 @@ Definition valid (o : op) : bool :=
   | OSubString1 a b => nonul a && (b <? SIZE_MOD) && (N.of_nat (length a) <? NPOS)
   | OReplaceChar a c1 c2 => nonul a && isbyte c1 && isbyte c2
   | OOrdinal n => n <? 4294967296
+  | OReplaceStr a to w => nonul a && nonul to && nonul w
+  | OPrintable a => nonul a
+  | OAppend a b | OPlus a b | OFormat a b => nonul a && nonul b
+  | OCopyBuf a dn => nonul a
   end.
 
 Definition vz (r : res Z) : oval := match r with Ok z => VZ z | _ => VErr end.
@@ -364,8 +387,18 @@ Definition eval (o : op) : oval :=
   | OLower a => vstr (lowerCase_m (cs a))
   | OReplaceChar a c1 c2 => vstr (replaceChar_m (cs a) c1 c2)
   | OOrdinal n => VB (ordinal_m n)
+  | OReplaceStr a to w => vstr (replaceStr_m (cs a) (cs to) (cs w))
+  | OPrintable a => vstr (printable_m (cs a))
+  | OAppend a b => vstr (append_m (cs a) (cs b))
+  | OPlus a b => vstr (plus_m (cs a) (cs b))
+  | OCopyBuf a dn => match copyToBuffer_m (cs a) (fresh dn) dn with Ok d => VB d | _ => VErr end
+  | OFormat a b => vstr (format_m (a ++ b))
   end.
-Definition run (o : op) : obs := {| o_val := eval o; o_ref := true; o_paired := true |}.
+(* allocator pairing verdict of the modelled event log (C13_Alloc.v); operations whose buffers all belong to SimpleString
+   objects are covered by the theorem alloc_pairing over the buffer primitives *)
+Definition pairing (o : op) : bool :=
+  match o with OFormat a b => paired (format_log (length (a ++ b))) | _ => true end.
+Definition run (o : op) : obs := {| o_val := eval o; o_ref := true; o_paired := pairing o |}.
 
 (* -------- spec: the textbook answer (lib/Str.v, C13_Text.v only -- nothing of the model above) -------- *)
 Definition bz (b : bool) : oval := VZ (if b then 1 else 0).
@@ -390,6 +423,10 @@ Definition expected (o : op) : oval :=
   | OLower a => VB (lower a)
   | OReplaceChar a c1 c2 => VB (cut_nul (t_repl_char c1 c2 a))
   | OOrdinal n => VB (t_ordinal n)
+  | OReplaceStr a to w => VB (t_replace a to w)
+  | OPrintable a => VB (t_printable a)
+  | OAppend a b | OPlus a b | OFormat a b => VB (a ++ b)
+  | OCopyBuf a dn => VB (t_copy_out a dn)
   end.
 Fixpoint lbytes_eqb (x y : list (list N)) : bool :=
   match x, y with [], [] => true | a :: x', b :: y' => bytes_eqb a b && lbytes_eqb x' y' | _, _ => false end.
